@@ -74,7 +74,7 @@ if [ "$ID" = C01 ] && [ "$TIER" = thorough ]; then
   rbin=$(build $id race) || { echo "$rbin"; exit 2; }
   side=${VERIF_STATE_DIR:-/verif}/out/C01/race-pass
   mkdir -p $side
-  VERIF_C01_RACE=1 VERIF_STATE_DIR=$side ./$rbin $TIER | sed 's/^SUMMARY/SUMMARY(race-pass)/; s/^COUNTERS/COUNTERS(race-pass)/'
+  VERIF_C01_RACE=1 VERIF_METRICS=0 VERIF_STATE_DIR=$side ./$rbin $TIER | sed 's/^SUMMARY/SUMMARY(race-pass)/; s/^COUNTERS/COUNTERS(race-pass)/'
   rc_pre=${PIPESTATUS[0]}
 fi
 ./$bin $TIER
